@@ -221,6 +221,14 @@ def run_sql(ck):
             ck.report_known("unwrap-needs-parser", "%s => Process error '%s'" % (c["query"], c["err_text"]))
         if cls == "label-format-ignored":
             ck.obligation("corpus witness: a label_format stage before any breakpoint is refused, not dropped", c.get("err") == "plan", "%s => %s" % (c["query"], (c.get("sql") or [c.get("err_text")])[0][:200]))
+    # ---- glue: logql_transpiler_v2.Plan rewrites the AST before the planners see it (groupByNothing); the model's norm_script
+    # applied to the script as written must give the script the harness dumped after the real entry point ran
+    nbad = [c for c in allc if c.get("norm_ok") == "n"]
+    ck.obligation("correspondence: the script handed to the planners = norm_script(script as written) on the %d scripts the reader plans whole (%d with a breakpoint are not handed over whole; %d rewritten)" % (
+        sum(1 for c in allc if c.get("norm_ok") == "y"), sum(1 for c in allc if c.get("norm_ok") == "x"), sum(1 for c in allc if c.get("script1_ml"))),
+        not nbad, "; ".join(c["query"] for c in nbad[:3]))
+    if nbad:
+        ck.metric_mismatch_cases = getattr(ck, "metric_mismatch_cases", []) + [dict(c, diff="norm_script(script as written) differs from the script the entry point left") for c in nbad[:3]]
     # ---- spec oracle 1: the roll-up table only for representable queries
     short_bad = [c for c in allc if c.get("sql") and RE_M15.search(c["sql"][0]) and c.get("m15_spec") is False]
     ck.obligation("spec oracle: the implementation reads metrics_15s only for queries whose every stage is answerable from it (m15_representable)",
@@ -400,8 +408,9 @@ class ExecRunner:
             return rc, out
         chunks = []
         for k in range(0, len(cases), 25):
-            chunks.append("let chunk%d = [\n %s]\n" % (k // 25, ";\n ".join("(%d, %s, %s, %s, %s)" % (
-                c["id"], c["script_ml"], c["ctx_ml"], c["dbs_ml"], ("Some (%s)" % c["sql_tree_ml"]) if c.get("sql_tree_ml") else "None") for c in cases[k:k + 25])))
+            chunks.append("let chunk%d = [\n %s]\n" % (k // 25, ";\n ".join("(%d, %s, %s, %s, %s, %s)" % (
+                c["id"], c["script_ml"], c.get("script1_ml") or c["script_ml"], c["ctx_ml"], c["dbs_ml"],
+                ("Some (%s)" % c["sql_tree_ml"]) if c.get("sql_tree_ml") else "None") for c in cases[k:k + 25])))
         txt = "".join(chunks) + "let cases = List.concat [" + "; ".join("chunk%d" % i for i in range(len(chunks))) + "]\n"
         prelude = open(os.path.join(vcheck.VERIF, "ocaml", "prelude.ml")).read()
         open(os.path.join(self.dir, "cases.ml"), "w").write("open Logqlexec\n%s\n%s\n" % (prelude, txt))
@@ -419,13 +428,15 @@ class ExecRunner:
 
 
 def parse_exec_out(out):
-    r = {"verd": {}, "got": {}, "want": {}, "m15": {}, "vdef": {}, "wdef": {}, "text": {}}
+    r = {"verd": {}, "got": {}, "want": {}, "m15": {}, "vdef": {}, "wdef": {}, "text": {}, "norm": {}}
     for ln in out.splitlines():
         p = ln.split(" ")
         if p[0] == "S":
             r["m15"][int(p[1])] = p[2] == "1"
         elif p[0] == "T":
             r["text"][int(p[1])] = p[2]
+        elif p[0] == "N":
+            r["norm"][int(p[1])] = p[2] == "1"
         elif p[0] == "D":
             r["verd"][(int(p[1]), int(p[2]))] = (int(p[3]), int(p[4]))
             r["vdef"][(int(p[1]), int(p[2]))] = int(p[5])
@@ -492,6 +503,9 @@ def judge_exec(ck, xr, run, label):
             tbad.append(c)
     ck.obligation("execution (%s): render(prep(parse(statement))) = the implementation's statement, byte for byte, on the %d executed cases" % (label, len(run)),
                   not tbad, "; ".join("%s => %s" % (c["query"], c["tree_diff"]) for c in tbad[:3]))
+    nbad = [c for c in run if not r["norm"].get(c["id"])]
+    ck.obligation("execution (%s): the script the reader's entry point hands to the planners is norm_script (model/LogqlPlan.v) of the script as written, on the %d executed cases" % (label, len(run)),
+                  not nbad, "; ".join(c["query"] for c in nbad[:3]))
     tbad_ids = {c["id"] for c in tbad}
     hist = {"agree": 0, "tie-dependent": 0, "differ": 0, "not-evaluated": 0, "no-reference": 0, "shortcut-window-unaligned": 0, "text-not-rendered": 0}
     differ, noeval, distinct = [], [], set()
